@@ -66,10 +66,18 @@ def gen(rng, tier):
         while v: digs = "0123456789ABCDEFGHIJKLMNOPQRSTUVWXYZ"[v % 36] + digs; v //= 36
         plan.append(("b36dec_secure", ["x", hexs(digs.encode())], [d], "ok", "n=%d" % n))
         plan.append(("b36dec_secure", ["x", hexs(digs.encode() + b"*")], [d], "ok", "invalid-suffix n=%d" % n))
+    # secret_string: set / rotate / move / reveal / callbacks that return, throw a std exception, throw another type
+    for n in [8, 31, 32, 33, 64, 100, 500]:
+        p1 = sec(n); p2 = sec(rng.choice([9, 40, 200]))
+        for api, exp in [("ss_set", "ok"), ("ss_rotate", "ok"), ("ss_move", "ok"), ("ss_reveal", "ok"), ("ss_cb", "ok")]:
+            plan.append((api, ["x", hexs(p1), hexs(p2)], [p1, p2], exp, "n=%d" % n))
+        plan.append(("ss_cb_throw_std", ["x", hexs(p1), hexs(p2), "E=throw:runtime_error"], [p1], "cbthrow", "n=%d" % n))
+        plan.append(("ss_cb_throw_other", ["x", hexs(p1), hexs(p2), "E=throw:callback_type"], [p1], "cbthrow", "n=%d" % n))
     # phase 1: derived values from the inventory model
     model = os.path.join(core.OCAML, "model_run")
     def nq(api, args, exp):
         a = [x for x in args if not x.startswith("E=")]
+        if api.startswith("ss_"): return "cteq - -"          # the needle is the plaintext itself
         if exp == "throw":       # rejected before the derivation runs: only what is computed before the rejection (pepper: HMAC(pepper, password))
             return "needles hmac %s %s %s" % (a[0], a[3], a[1]) if api == "pepper" else "needles hmac %s %s -" % (a[0], a[1])
         return "needles %s %s" % (api, " ".join(a))
@@ -80,7 +88,7 @@ def gen(rng, tier):
     outs = [o + (" " + po if api == "pepper" else "") for o, po, (api, _a, _s, _e, _c) in zip(outs, pouts, plan)]
     cases = []
     for (api, args, secs, exp, cls), o in zip(plan, outs):
-        needles = [hexs(s) for s in secs if len(s) >= 8] + [x for x in o.split() if x != "-" and not x.startswith("MODEL-ERROR")]
+        needles = [hexs(s) for s in secs if len(s) >= 8] + ([] if api.startswith("ss_") else [x for x in o.split() if x != "-" and not x.startswith("MODEL-ERROR")])
         line = "heap %s %s @ %s" % (api, " ".join(args), " ".join(needles) if needles else "00")
         cases.append(Case(line, "%s %s %s" % (api, cls, exp), any(len(s) >= 8 for s in secs), spec=line))     # the inventory theorem (C17_released_zero) is the spec: clean
     return cases
